@@ -6,6 +6,7 @@ import (
 	"errors"
 	"fmt"
 	"math"
+	"math/bits"
 	"sort"
 	"strconv"
 	"strings"
@@ -35,8 +36,9 @@ import (
 //   build <rate> <i>*              -> b <bonded i,…> Node.BuildChunk; the txs handed to the inner DSMR
 //   buildfail <rate> <i>*          -> e <bonded i,…> the same, but the inner DSMR.BuildChunk returns an error
 //   accept <ts> <i>*               -> ok          Node.Accept of a block with timestamp ts executing txs
-// every output is followed by ` p=<pending0>,<pending1> rec=<i:fee,…> heap=<i,…>` read back from
-// the bonder db / the node's pending heap.
+// every output is followed by ` p=<pending0>,<pending1> rec=<i:fee,…> heap=<i,…> dw=<n>` read back
+// from the bonder db / the node's pending heap; dw = number of bonder db writes made outside a
+// batch so far (the model writes balance and fee record in one atomic batch: always 0).
 
 type c38Auth struct {
 	sponsor byte
@@ -125,8 +127,18 @@ func (d *c38DSMR) Accept(_ context.Context, b dsmr.Block) (dsmr.ExecutedBlock[*c
 	}, nil
 }
 
+// c38DB counts the writes that bypass a batch: the model (and the property's accounting) relies
+// on Bond/Unbond changing the pending balance and the fee record in ONE atomic batch.
+type c38DB struct {
+	database.Database
+	direct int
+}
+
+func (d *c38DB) Put(k, v []byte) error { d.direct++; return d.Database.Put(k, v) }
+func (d *c38DB) Delete(k []byte) error { d.direct++; return d.Database.Delete(k) }
+
 type c38Seq struct {
-	db      database.Database
+	db      *c38DB
 	bonder  Bonder
 	view    c38Mutable
 	inner   *c38DSMR
@@ -142,7 +154,7 @@ type c38Seq struct {
 }
 
 func newC38Seq(line int) *c38Seq {
-	db := memdb.New()
+	db := &c38DB{Database: memdb.New()}
 	s := &c38Seq{db: db, bonder: NewBonder(db), view: c38Mutable{}, inner: &c38DSMR{}, txs: map[int]*chain.Transaction{}, unsettled: map[int]uint64{}, start: line}
 	s.node = fdsmr.New[*c38DSMR, *chain.Transaction](s.inner, s.bonder)
 	return s
@@ -182,7 +194,7 @@ func (s *c38Seq) observe() string {
 		}
 		return strings.Join(x, ",")
 	}
-	return fmt.Sprintf(" p=%d,%d rec=%s heap=%s", s.pending(0), s.pending(1), j(recs), j(heap))
+	return fmt.Sprintf(" p=%d,%d rec=%s heap=%s dw=%d", s.pending(0), s.pending(1), j(recs), j(heap), s.db.direct)
 }
 
 func TestVerifC38(t *testing.T) {
@@ -267,11 +279,16 @@ func TestVerifC38(t *testing.T) {
 			s.raw = true
 			sp := tx.Auth.(c38Auth).sponsor
 			before := s.pending(sp)
+			txID := tx.GetID()
+			hadRec, _ := s.db.Has(txID[:])
 			got, err := s.bonder.Bond(ctx, s.view, tx, args[1].u)
 			if err != nil {
 				t.Fatal(err)
 			}
 			r.Emit(l, strconv.FormatBool(got)+s.observe())
+			if got && !hadRec {
+				s.checkFee(r, l, int(args[0].u), tx, args[1].u)
+			}
 			if after := s.pending(sp); after > s.max[sp] && (after > before || (!got && after != before)) {
 				r.ViolationAt("pending-exceeds-max", s.start, r.Line(), "sponsor %d pending rose %d -> %d > max %d after %s", sp, before, after, s.max[sp], l)
 			}
@@ -294,6 +311,11 @@ func TestVerifC38(t *testing.T) {
 			}
 			rate := args[0].u
 			before := [2]uint64{s.pending(0), s.pending(1)}
+			recBefore := map[int]bool{} // fee record present before this build (e.g. from a raw Bond)
+			for p, tx := range txs {
+				id := tx.GetID()
+				recBefore[is[p]], _ = s.db.Has(id[:])
+			}
 			s.inner.built = nil
 			s.inner.fail = f[0] == "buildfail"
 			if err := s.node.BuildChunk(ctx, s.view, txs, 0, codec.EmptyAddress, rate); (err != nil) != (f[0] == "buildfail") || (err != nil && !errors.Is(err, errC38Inner)) {
@@ -330,12 +352,18 @@ func TestVerifC38(t *testing.T) {
 			// oracle bookkeeping: a tx passed on is bonded; if it was already unsettled this is a re-bond
 			for _, p := range bondedPos {
 				i := is[p]
-				if _, already := s.unsettled[i]; already {
+				if _, already := s.unsettled[i]; already || recBefore[i] {
 					s.dupBond = true
 					r.Count("dup-bond")
+					if !already { // bonded by a raw Bond earlier: the fee of that bonding is held
+						id := txs[p].GetID()
+						if v, err := s.db.Get(id[:]); err == nil && len(v) == 8 {
+							s.unsettled[i] = binary.BigEndian.Uint64(v)
+						}
+					}
 					continue
 				}
-				s.unsettled[i] = uint64(txs[p].Size()) * rate // no overflow: Bond checked it
+				s.unsettled[i] = s.checkFee(r, l, i, txs[p], rate)
 			}
 			// pending never rises above the max balance
 			for sp := byte(0); sp < 2; sp++ {
@@ -372,6 +400,25 @@ func TestVerifC38(t *testing.T) {
 			bad()
 		}
 	}
+}
+
+// checkFee: the fee of a newly bonded tx is size x rate computed in unbounded integers; a bond
+// whose fee does not fit 64 bits must have been refused. Returns the fee held for the tx.
+func (s *c38Seq) checkFee(r *verifh.Run, l string, i int, tx *chain.Transaction, rate uint64) uint64 {
+	hi, lo := bits.Mul64(uint64(tx.Size()), rate)
+	id := tx.GetID()
+	rec := uint64(0)
+	if v, err := s.db.Get(id[:]); err == nil && len(v) == 8 {
+		rec = binary.BigEndian.Uint64(v)
+	}
+	if hi != 0 {
+		r.ViolationAt("fee-wrapped", s.start, r.Line(), "tx %d of %d bytes bonded at rate %d: the fee %d*%d exceeds 2^64 but the bond was admitted with a recorded fee of %d (%s)", i, tx.Size(), rate, tx.Size(), rate, rec, l)
+		return rec
+	}
+	if rec != lo {
+		r.ViolationAt("fee-record-ne-size-times-rate", s.start, r.Line(), "tx %d: recorded fee %d, size*rate = %d (%s)", i, rec, lo, l)
+	}
+	return lo
 }
 
 // checkSum: pending(s) = sum of the fees of s's bonded txs neither accepted nor expired; in
@@ -477,6 +524,15 @@ func c38Generate(r *verifh.Run) []string {
 	add("buildfail 1 0")
 	add("build 1 0")
 	add("accept 101")
+	// fee rates around 2^64/size: the product must not wrap
+	add("reset")
+	add("deftx 0 0 %d 100", s0)
+	add("setmax 0 18446744073709551615")
+	add("build %d 0", uint64(math.MaxUint64)/uint64(s0)+1)
+	add("build %d 0", uint64(math.MaxUint64)/uint64(s0))
+	add("accept 101")
+	add("build %d 0", uint64(math.MaxUint64)/uint64(s0)+2)
+	add("bond 0 %d", uint64(math.MaxUint64)/uint64(s0)+1)
 	// raw bonder: double bond, single unbond
 	add("reset")
 	add("deftx 0 0 %d 100", s0)
@@ -510,6 +566,12 @@ func c38Generate(r *verifh.Run) []string {
 			add("deftx %d %d %d %d", i, sp, sizes[i], e)
 		}
 		rate := rates[r.RNG.Intn(len(rates))]
+		boundary := func() uint64 { // around 2^64/size of one of this sequence's txs
+			return uint64(math.MaxUint64)/uint64(sizes[r.RNG.Intn(ntx)]) + uint64(r.RNG.Intn(4)) - 1
+		}
+		if r.RNG.Chance(12) {
+			rate = boundary()
+		}
 		pickMax := func() uint64 {
 			fee := uint64(sizes[r.RNG.Intn(ntx)]) * rate
 			switch r.RNG.Intn(8) {
@@ -549,6 +611,9 @@ func c38Generate(r *verifh.Run) []string {
 			rt := rate
 			if r.RNG.Chance(25) {
 				rt = rates[r.RNG.Intn(len(rates))]
+			}
+			if r.RNG.Chance(6) {
+				rt = boundary()
 			}
 			c := r.RNG.Intn(100)
 			switch {
